@@ -32,3 +32,14 @@ Lemma exec_pct_is_pct_float : forall b def m,
 Proof.
   intros b def m. unfold pct_order, pct_float. rewrite exec_total_is_total_float. reflexivity.
 Qed.
+
+Lemma exec_is_float_model : forall b def m,
+  rate_x (b_typ b) def m = rate_float b def m
+  /\ total_order (b_typ b) def (bus_msgs b) = total_float b def
+  /\ load_order (b_typ b) (b_baud b) def (bus_msgs b) = load_float b def
+  /\ pct_order (b_typ b) def (bus_msgs b) m = pct_float b def m.
+Proof.
+  intros b def m. split; [apply exec_rate_is_rate_float|].
+  split; [apply exec_total_is_total_float|].
+  split; [apply exec_load_is_load_float | apply exec_pct_is_pct_float].
+Qed.
